@@ -441,4 +441,100 @@ theorem script_delivered (pool : Slice) (ops : List Op) (inputs : List (Bytes ×
 example : messagesOf (parseAndClear ⟨[⟨b "x", b "y", 1, true⟩], 0⟩ (encode (runOps
       [.flash (b "a") (b "1") 1, .input [(b "a", b "in")], .flash (b "a") (b "2") 2]))).messages = [(b "a", b "2", 2)] := by decide
 
+/-! ### Keyed readers `Message(key)` / `OldInput(key)` -/
+
+/-- `Message(k)` is the first entry of `Messages()` with key `k` (zero value if none), whatever else
+    the slice holds — in particular an old input with the same key in front of it. -/
+theorem message_agrees_with_list (ms : List Msg) (k : Bytes) :
+    messageOf ms k = ((messagesOf ms).find? (·.1 = k)).getD ([], [], 0) := by
+  unfold messageOf messagesOf
+  rw [List.find?_map, find?_filter_and]
+  show _ = (Option.map _ (ms.find? (fun m => decide (m.key = k) && !m.old))).getD _
+  cases ms.find? (fun m => decide (m.key = k) && !m.old) <;> rfl
+
+/-- `OldInput(k)` is the first entry of `OldInputs()` with key `k` (zero value if none). -/
+theorem oldInput_agrees_with_list (ms : List Msg) (k : Bytes) :
+    oldInputOf ms k = ((oldInputsOf ms).find? (·.1 = k)).getD ([], []) := by
+  unfold oldInputOf oldInputsOf
+  rw [List.find?_map, find?_filter_and]
+  show _ = (Option.map _ (ms.find? (fun m => decide (m.key = k) && m.old))).getD _
+  cases ms.find? (fun m => decide (m.key = k) && m.old) <;> rfl
+
+-- an old input and a flash message under the same key, in both orders: neither hides the other
+example : messageOf [⟨b "email", b "tom@x", 0, true⟩, ⟨b "email", b "invalid", 2, false⟩] (b "email") = (b "email", b "invalid", 2)
+    ∧ oldInputOf [⟨b "email", b "invalid", 2, false⟩, ⟨b "email", b "tom@x", 0, true⟩] (b "email") = (b "email", b "tom@x") := by decide
+
+/-- the model's keyed readers are the specification's (which is phrased through the list readers) -/
+theorem keyed_meet_spec (ms : List Msg) (k : Bytes) :
+    messageOf ms k = specMessage ms k ∧ oldInputOf ms k = specOldInput ms k := by
+  constructor
+  · unfold messageOf specMessage
+    rw [find?_filter_and]; rfl
+  · unfold oldInputOf specOldInput
+    rw [find?_filter_and]; rfl
+
+/-- `keyed_after_decode`: for every state of the pooled slice and every byte string as cookie, both
+    keyed readers answer from the messages of the stateless reference decoder, exactly as the
+    specification says (never from leftovers, never hidden by an entry of the other kind). -/
+theorem keyed_after_decode (s : Slice) (cookie k : Bytes) (hs : s.len = 0) :
+    messageOf (parseAndClear s cookie).messages k = specMessage (expectedSeen cookie) k ∧
+    oldInputOf (parseAndClear s cookie).messages k = specOldInput (expectedSeen cookie) k := by
+  rw [parseAndClear_refines_spec s cookie hs]
+  exact keyed_meet_spec _ k
+
+example : oldInputOf (parseAndClear ⟨[⟨b "email", b "stale", 1, true⟩], 0⟩
+    (encode [⟨b "email", b "invalid", 65, false⟩, ⟨b "email", b "tom", 65, true⟩])).messages (b "email") = (b "email", b "tom") := by decide
+
+/-- `script_keyed`: for every chain of builder calls (any interleaving, colliding keys, repeated
+    `WithInput()`, any map order per call; the bound map has one value per key): `Message(k)` on the
+    attached messages is the message `expectedFlash` holds for `k`, `OldInput(k)` is the old input
+    for `k` (the same value in every copy) — the values the spec oracle expects. -/
+theorem script_keyed (ops : List Op) (inputs : List (Bytes × Bytes))
+    (hperm : ∀ o ∈ inputsOf ops, o.Perm inputs) (hf : Functional inputs) (k : Bytes) :
+    messageOf (runOps ops) k =
+      specMessage (expectedFlash (callsOf ops) ++ expectedOldN (inputsOf ops).length inputs) k ∧
+    oldInputOf (runOps ops) k =
+      specOldInput (expectedFlash (callsOf ops) ++ expectedOldN (inputsOf ops).length inputs) k := by
+  have f1 : (expectedFlash (callsOf ops)).filter (!·.old) = expectedFlash (callsOf ops) :=
+    List.filter_eq_self.2 (fun m hm => by simp [expectedFlash_not_old _ m hm])
+  have f2 : (expectedFlash (callsOf ops)).filter (·.old) = [] :=
+    List.filter_eq_nil_iff.2 (fun m hm => by simp [expectedFlash_not_old _ m hm])
+  have o1 : (expectedOldN (inputsOf ops).length inputs).filter (!·.old) = [] :=
+    List.filter_eq_nil_iff.2 (fun m hm => by simp [expectedOldN_old _ _ m hm])
+  have o2 : (expectedOldN (inputsOf ops).length inputs).filter (·.old) = expectedOldN (inputsOf ops).length inputs :=
+    List.filter_eq_self.2 (fun m hm => expectedOldN_old _ _ m hm)
+  obtain ⟨h1, h2⟩ := keyed_meet_spec (runOps ops) k
+  constructor
+  · rw [h1]
+    unfold specMessage
+    rw [with_overwrite_rule, List.filter_append, f1, o1, List.append_nil]
+  · rw [h2]
+    unfold specOldInput
+    rw [withInput_appends, List.filter_append, f2, o2, List.nil_append, expectedOldN_eq_flatMap,
+      find?_flatMap_expectedOld inputs hf k _ hperm,
+      find?_flatMap_expectedOld inputs hf k _ (fun o ho => by rw [(List.mem_replicate.1 ho).2])]
+    by_cases hL : inputsOf ops = []
+    · simp [hL]
+    · have : List.replicate (inputsOf ops).length inputs ≠ [] := by
+        intro h
+        have := congrArg List.length h
+        simp only [List.length_replicate, List.length_nil] at this
+        exact hL (List.eq_nil_of_length_eq_zero this)
+      simp [hL, this]
+
+-- With("email") then WithInput() with a field `email`, and the other way round
+example : oldInputOf (runOps [.flash (b "email") (b "invalid") 2, .input [(b "email", b "tom")]]) (b "email") = (b "email", b "tom")
+    ∧ messageOf (runOps [.input [(b "email", b "tom")], .flash (b "email") (b "invalid") 2]) (b "email") = (b "email", b "invalid", 2) := by decide
+
+/-- `script_keyed_delivered`: composed with the decoder, for every pool state of the next request. -/
+theorem script_keyed_delivered (pool : Slice) (ops : List Op) (inputs : List (Bytes × Bytes)) (hp : pool.len = 0)
+    (hperm : ∀ o ∈ inputsOf ops, o.Perm inputs) (hf : Functional inputs) (hvalid : ∀ op ∈ ops, op.valid)
+    (hn : (runOps ops).length < 4294967296) (k : Bytes) :
+    let seen := (parseAndClear pool (encode (runOps ops))).messages
+    let expected := expectedFlash (callsOf ops) ++ expectedOldN (inputsOf ops).length inputs
+    messageOf seen k = specMessage expected k ∧ oldInputOf seen k = specOldInput expected k := by
+  have hv : ∀ m ∈ runOps ops, m.valid := foldl_apply_valid ops [] (by simp) hvalid
+  simp only [decode_encode pool (runOps ops) hp hv hn]
+  exact script_keyed ops inputs hperm hf k
+
 end C12
